@@ -66,7 +66,7 @@ def run_shard(ctx):
             kw["isexec"] = rng.random() < 0.6
         for f in ("version_id", "etag", "checksum", "md5", "remote"):
             if rng.random() < 0.2:
-                kw[f] = rng.choice(["", "abc", "d41d8cd98f00b204e9800998ecf8427e", "é😀", "null", "0"])
+                kw[f] = rng.choice(["", "abc", "d41d8cd98f00b204e9800998ecf8427e", "é😀", "null", "0", '"0x8DABCDEF"', '"quoted"', 'W/"weak"', '"'])
         if rng.random() < 0.15:
             kw["inode"] = rng.randrange(10**9)
             kw["mtime"] = rng.random() * 1e9
